@@ -12,8 +12,14 @@ import re
 from harness import core, tlc
 from harness.core import Prop
 
-SP = {"lower": "ab", "upper": "AB", "mixed": "Ab", "qlower": '"ab"', "qupper": '"AB"', "qmixed": '"Ab"'}
-FOLD = {"lower": "AB", "upper": "AB", "mixed": "AB", "qupper": "AB", "qlower": "ab", "qmixed": "Ab"}
+SP = {"lower": "ab", "upper": "AB", "mixed": "Ab", "qlower": '"ab"', "qupper": '"AB"', "qmixed": '"Ab"',
+      "fnlower": "identifier('ab')", "fnmixed": "identifier('Ab')"}
+FOLD = {"lower": "AB", "upper": "AB", "mixed": "AB", "qupper": "AB", "qlower": "ab", "qmixed": "Ab", "fnlower": "AB", "fnmixed": "AB"}
+
+
+def keep(sp: str) -> str:
+    """an identifier as spelled by the operation: its letter case is not touched by kwcase (IDENTIFIER('..') is a keyword + a literal)"""
+    return sp if sp.startswith("identifier(") else f"«{sp}»"
 _N = 0
 
 
@@ -122,6 +128,7 @@ class C02(Prop):
         cur.execute("insert into base values (1)")
         ev = []
         made_cols = []
+        self.made_alias = made_cols
         for op in ops:
             k = op["k"]
             obs = {"res": "ok", "names": []}
@@ -156,8 +163,8 @@ class C02(Prop):
         import snowflake.connector.errors as sferr
 
         kind, sp, kw = op["kind"], SP[op["sp"]], op["kw"]
-        sql = {"table": f"create table «{sp}» (c int)", "view": f"create view «{sp}» as select k from base",
-               "column": f"alter table colt add column «{sp}» int", "schema": f"create schema «{sp}»",
+        sql = {"table": f"create table {keep(sp)} (c int)", "view": f"create view {keep(sp)} as select k from base",
+               "column": f"alter table colt add column «{sp}» int", "schema": f"create schema {keep(sp)}",
                "alias": None, "variable": f"set «{sp}» = 7"}[kind]
         if kind == "column":
             conn.cursor().execute("create table if not exists colt (z int)")
@@ -183,7 +190,7 @@ class C02(Prop):
         import snowflake.connector.errors as sferr
 
         kind, sp, kw, stmt = op["kind"], SP[op["sp"]], op["kw"], op["stmt"]
-        q = f"«{sp}»"
+        q = keep(sp)
         if kind in ("table", "view"):
             sql = {"select": f"select count(*) from {q}", "insert": f"insert into {q} select 1 where 1 = 0", "update": f"update {q} set c = c where 1 = 0",
                    "delete": f"delete from {q} where 1 = 0", "describe": f"describe {'view' if kind == 'view' else 'table'} {q}",
@@ -202,7 +209,16 @@ class C02(Prop):
                 for (s,) in raw.execute("select schema_name from information_schema.schemata where catalog_name = 'DB1' and schema_name not in ('main', 'information_schema', 'pg_catalog')").fetchall():
                     raw.execute(f'create table if not exists DB1."{s}"."PROBE" (i int)')
         elif kind == "alias":
-            return {"res": "found", "names": []} if False else self._alias_find(op, conn, rng)
+            if not self.made_alias:
+                return {"res": "missing", "names": []}
+            made = SP[self.made_alias[-1]]
+            sql = {"join_on": f"select base.k as «{made}» from base join base j on {q} = j.k",
+                   "orderby": f"select k as «{made}» from base order by {q}"}[stmt]
+            try:
+                self.run(conn, sql, kw, rng).fetchall()
+                return {"res": "found", "names": []}
+            except sferr.ProgrammingError:
+                return {"res": "missing", "names": []}
         else:
             sql = f"select $«{sp}»"
         try:
@@ -277,9 +293,20 @@ class C02(Prop):
             for s in made_cols:
                 seen.setdefault(FOLD[s], s)
             sel = ", ".join(f"{i} as {SP[s]}" for i, s in enumerate(seen.values())) or "1 as zz"
+            cols = ", ".join(SP[s] for s in seen.values()) or "zz"
+            vals = ", ".join(str(i) for i in range(max(1, len(seen))))
             if ch == "description":
                 cur.execute(f"select {sel}")
                 names = [m.name for m in cur.description]
+            elif ch == "collist_description":
+                cur.execute(f"select * from (values ({vals})) as v({cols})")
+                names = [m.name for m in cur.description]
+            elif ch == "cte_description":
+                cur.execute(f"with c({cols}) as (select {vals}) select * from c")
+                names = [m.name for m in cur.description]
+            elif ch == "collist_dictkeys":
+                d = conn.cursor(DictCursor)
+                names = list(d.execute(f"select * from (values ({vals})) as v({cols})").fetchall()[0].keys())
             else:
                 d = conn.cursor(DictCursor)
                 names = list(d.execute(f"select {sel}").fetchall()[0].keys())
